@@ -100,6 +100,8 @@ def _container(kind, items):
         return set(items)
     if kind == "view":
         return {i: x for i, x in enumerate(items)}.values()   # iterable, re-iterable, no list/tuple/set
+    if kind == "gen":
+        return (x for x in list(items))                       # one-shot iterator
     return Junk()
 
 
@@ -121,17 +123,39 @@ def _links(nodes):
     return out
 
 
-def apply_op(cl, nodes, op):
+def is_reuse(op):
+    """harness-only marker (ignored by the model): pass the very list object of the previous op again"""
+    return op[-1] == "reuse" and ((op[0] in ("SetParents", "SetKids") and len(op) == 6) or (op[0] == "New" and len(op) == 7))
+
+
+def _mk(ctx, nodes, kind, args, reuse):
+    """the argument object of an assignment.  The caller's *list* objects are remembered: the model
+    has no aliasing, so (a) the same list object may be handed to two consecutive assignments and
+    (b) the caller may change its list after the call without any effect on the nodes."""
+    items = [_arg(nodes, a) for a in args]
+    if kind != "list":
+        return _container(kind, items)
+    key = repr(args)
+    obj = ctx["last"].get(key) if reuse else None
+    if obj is None:
+        obj = list(items)
+    ctx["used"].append((key, obj))
+    return obj
+
+
+def apply_op(cl, nodes, op, ctx=None):
     F = cl["Faults"]
     F.queue = []
     F.pending = False
+    ctx = ctx if ctx is not None else {"last": {}, "used": []}
+    reuse = is_reuse(op)
     k = op[0]
     if k == "SetParents":
         F.queue = [_fq(op[4])]
-        nodes[op[1]].parents = _container(op[2], [_arg(nodes, a) for a in op[3]])
+        nodes[op[1]].parents = _mk(ctx, nodes, op[2], op[3], reuse)
     elif k == "SetKids":
         F.queue = [_fq(op[4])]
-        nodes[op[1]].children = _container(op[2], [_arg(nodes, a) for a in op[3]])
+        nodes[op[1]].children = _mk(ctx, nodes, op[2], op[3], reuse)
     elif k == "DelKids":
         del nodes[op[1]].children
     elif k == "DelKid":
@@ -146,12 +170,27 @@ def apply_op(cl, nodes, op):
         F.queue = [_fq(op[4]), _fq(op[5])]
         kw = {}
         if op[2] is not None:
-            kw["parents"] = _container(op[2][0], [_arg(nodes, a) for a in op[2][1]])
+            kw["parents"] = _mk(ctx, nodes, op[2][0], op[2][1], reuse)
         if op[3] is not None:
-            kw["children"] = _container(op[3][0], [_arg(nodes, a) for a in op[3][1]])
+            kw["children"] = _mk(ctx, nodes, op[3][0], op[3][1], reuse)
         cl["FDag"](op[1], **kw)
     else:
         raise ValueError(k)
+
+
+def _after_call(ctx, nodes, k, keep):
+    """what the caller does with its own list objects after op number k: keep them untouched when the
+    next op is going to pass them again, otherwise change them (append some node / clear)"""
+    used, ctx["used"] = ctx["used"], []
+    if keep:
+        ctx["last"] = dict(used)
+        return
+    ctx["last"] = {}
+    for j, (_, lst) in enumerate(used):
+        if (k + j) % 3 == 2:
+            lst.clear()
+        else:
+            lst.append(nodes[(7 * k + 3 + j) % len(nodes)])
 
 
 def _upward(links, x):
@@ -173,15 +212,18 @@ def run_history(case):
     for i in range(case["n"]):
         cl["FDag"](case["names"][i])
     trace = []
-    for op in case["ops"]:
+    ctx = {"last": {}, "used": []}
+    ops = case["ops"]
+    for k, op in enumerate(ops):
         code = 0
         try:
-            apply_op(cl, nodes, op)
+            apply_op(cl, nodes, op, ctx)
         except HookFault:
             code = 12
         except Exception as e:
             code = exn_code(e)
         F.queue, F.pending = [], False
+        _after_call(ctx, nodes, k, keep=(k + 1 < len(ops) and is_reuse(ops[k + 1])))
         trace.append([_links(nodes), code])
     idx = {id(n): i for i, n in enumerate(nodes)}
     links = _links(nodes)
@@ -212,7 +254,7 @@ def run_impl(prop, case):
 # Coq literals
 
 _FT = {"none": "DNoFault", "pre": "DPreFail", "post": "DPostFail"}
-_CT = {"list": "DList", "tuple": "DTuple", "set": "DSet", "view": "DView", "noniter": "DNonIter"}
+_CT = {"list": "DList", "tuple": "DTuple", "set": "DSet", "view": "DView", "gen": "DGen", "noniter": "DNonIter"}
 
 
 def _carg(a):
@@ -475,17 +517,22 @@ def gen_case(rng, prop, fault_rate=0.08, invalid_rate=0.2, nmax=8, maxops=16):
                     dup = rng.choice(args)
                     args.insert(len(args) if rng.random() < 0.5 else rng.randint(0, len(args)), dup)
                 else:
-                    cont = rng.choice(["tuple", "view", "noniter", "set"])
+                    cont = rng.choice(["tuple", "view", "noniter", "set", "gen"])
                     if cont in ("set", "noniter"):
                         args = args[:1] if cont == "set" else []
             push(["SetParents", c, cont, args, fault()])
+            if cont == "list" and args and rng.random() < 0.25:       # the same list object once more
+                t2 = rng.choice([x for x in range(n) if x != c] or [c])
+                k2 = rng.choice(["SetParents"] * 4 + ["SetKids"])
+                if invalid_rate > 0 or (sh.parents_valid if k2 == "SetParents" else sh.children_valid)(t2, "list", args):
+                    push([k2, t2, "list", args, fault(), "reuse"])
         elif r < 0.54:                                     # p.children = ...
             p = rng.randrange(n)
             bad = sh.anc(p) | {p}
             cands = [x for x in range(n) if x not in bad]
             rng.shuffle(cands)
             args = _N(cands[: rng.randint(0, min(4, len(cands)))])
-            cont = rng.choice(["list", "list", "tuple", "view"])
+            cont = rng.choice(["list", "list", "tuple", "view", "gen"])
             if len(args) <= 1 and rng.random() < 0.15:
                 cont = "set"
             if invalid:
@@ -505,6 +552,11 @@ def gen_case(rng, prop, fault_rate=0.08, invalid_rate=0.2, nmax=8, maxops=16):
                 else:
                     cont, args = "noniter", []
             push(["SetKids", p, cont, args, fault()])
+            if cont == "list" and args and rng.random() < 0.25:       # the same list object once more
+                t2 = rng.choice([x for x in range(n) if x != p] or [p])
+                k2 = rng.choice(["SetKids"] * 4 + ["SetParents"])
+                if invalid_rate > 0 or (sh.parents_valid if k2 == "SetParents" else sh.children_valid)(t2, "list", args):
+                    push([k2, t2, "list", args, fault(), "reuse"])
         elif r < 0.68:                                     # p >> c, c << p
             c = rng.randrange(n)
             bad = sh.desc(c) | {c}
@@ -529,7 +581,7 @@ def gen_case(rng, prop, fault_rate=0.08, invalid_rate=0.2, nmax=8, maxops=16):
             cs_pool = [x for x in range(n) if x not in banned]
             cs = rng.sample(cs_pool, rng.randint(0, min(3, len(cs_pool))))
             pa = None if (not ps and rng.random() < 0.5) else ["list", _N(ps)]
-            ca = None if (not cs and rng.random() < 0.5) else [rng.choice(["list", "tuple"]), _N(cs)]
+            ca = None if (not cs and rng.random() < 0.5) else [rng.choice(["list", "tuple", "gen"]), _N(cs)]
             if invalid and ps:
                 ch = rng.random()
                 if ch < 0.5:
@@ -541,6 +593,8 @@ def gen_case(rng, prop, fault_rate=0.08, invalid_rate=0.2, nmax=8, maxops=16):
                 else:
                     ca = ["list", (ca[1] if ca else []) + [["Junk"]]]
             push(["New", pool[(off + n) % len(pool)], pa, ca, fault(), fault()])
+            if pa and pa[0] == "list" and pa[1] and rng.random() < 0.3 and sh.n < nmax + 2:
+                push(["New", pool[(off + n + 1) % len(pool)], pa, None, fault(), fault(), "reuse"])
     return {"assert": True, "n": n0, "names": names[:n0], "ops": ops, "stratum": f"{shape}/{pool_name}"}
 
 
@@ -617,12 +671,16 @@ def op_universe(key, n, valid_only=False):
                     out.append([kind, t, "list", _N(s), "post"])
             others = [x for x in range(n) if x != t]
             if kind == "SetKids":
-                for cont in ("tuple", "view"):
-                    for s in ([], others[:1], others[:2]):
+                for cont in ("tuple", "view", "gen"):
+                    for s in ([], others[:1], others[:2], others[:3][::-1]):
                         if ok(t, cont, _N(s)) or not valid_only:
                             out.append([kind, t, cont, _N(s), "none"])
             if not valid_only:
                 out.append([kind, t, "tuple", _N(others[:1]), "none"])
+                out.append([kind, t, "gen", _N(others[:2]), "none"])
+                if kind == "SetKids":
+                    out.append([kind, t, "gen", _N(others[:2]), "post"])
+                    out.append([kind, t, "gen", _N(others[:2] + others[:1]), "none"])
                 out.append([kind, t, "noniter", [], "none"])
                 out.append([kind, t, "list", _N(others[:1]) + [["Junk"]], "none"])
                 out.append([kind, t, "list", [["None"]] + _N(others[:1]), "none"])
@@ -744,6 +802,23 @@ def corpus(prop):
         ("delete", {"n": 4, "names": ["a", "b", "a", "c"], "ops": [
             ["SetKids", 3, "list", N([0, 1, 2]), "none"], ["RShift", 1, 2, "none"], ["DelKid", 3, "a"],
             ["DelKid", 3, "b"], ["DelKid", 3, "zz"], ["DelKids", 1], ["DelKids", 3]]}),
+        # F8 (fixed 0f7c8ab): a one-shot iterator was consumed by the loop check -- accepted with the checks on
+        # but no child added; with the checks off the children were added
+        ("F8-generator-children", {"n": 4, "names": ["a", "b", "c", "d"], "ops": [
+            ["SetKids", 0, "gen", N([1, 2]), "none"], ["SetKids", 1, "gen", N([3]), "none"],
+            ["New", "e", None, ["gen", N([0, 3])], "none", "none"], ["SetKids", 3, "gen", N([]), "none"]]}),
+        ("generator-rollback", {"n": 4, "names": ["a", "b", "c", "d"], "ops": [
+            ["SetKids", 0, "list", N([1]), "none"], ["SetKids", 0, "gen", N([1, 2, 3]), "post"],
+            ["SetKids", 0, "gen", N([2, 0]), "none"], ["SetParents", 3, "gen", N([0]), "none"],
+            ["SetKids", 0, "noniter", [], "none"]]}),
+        # seeded C10/patch4: the parents setter adopted the caller's list object (missing copy)
+        ("shared-list-parents", {"n": 5, "names": ["a", "b", "c", "d", "e"], "ops": [
+            ["SetParents", 2, "list", N([0, 1]), "none"], ["SetParents", 3, "list", N([0, 1]), "none", "reuse"],
+            ["RShift", 4, 2, "none"], ["New", "x", ["list", N([0])], None, "none", "none"],
+            ["New", "y", ["list", N([0])], None, "none", "none", "reuse"], ["LShift", 5, 1, "none"]]}),
+        ("shared-list-children", {"n": 5, "names": ["a", "b", "c", "d", "e"], "ops": [
+            ["SetKids", 0, "list", N([2, 3]), "none"], ["SetKids", 1, "list", N([2, 3]), "none", "reuse"],
+            ["RShift", 0, 4, "none"], ["SetParents", 4, "list", N([2, 3]), "none"], ["SetKids", 1, "list", N([4]), "none"]]}),
         ("constructor", {"n": 3, "names": ["a", "b", "c"], "ops": [
             ["RShift", 0, 1, "none"], ["New", "d", ["list", N([1])], ["list", N([2])], "none", "none"],
             ["New", "e", ["list", N([3])], ["list", N([0])], "none", "none"],
@@ -779,6 +854,9 @@ def generate(prop, rng, tier):
                 yield c["stratum"], c
     for i in range(count):
         c = gen_case(rng, prop, fault_rate=fr, invalid_rate=ir)
+        if prop == "C20" and rng.random() < 0.15:
+            # refused in both modes (checks on: __check_children_type, checks off: list() itself), nothing changes
+            c["ops"].append(["SetKids", rng.randrange(c["n"]), "noniter", [], "none"])
         yield c["stratum"], c
 
 
@@ -838,8 +916,9 @@ def rule(prop):
              "C20": " (C20: valid ops only, no faults; every history is run in-process with the checks on and in a child "
                     "interpreter started with BIGTREE_CONF_ASSERTIONS=\"\")"}[prop]
     return ("random operation histories (<= 16 ops, 2-10 DAGNode objects: parents/children setters with list/tuple/set/view/"
-            "non-iterable arguments, >>, <<, del children, del node[name], constructor with parents=/children=) with "
-            "fault-injecting hooks; strata: shape (deep/diamond/wide/mixed) x name pool (distinct/repeated); thorough tier adds "
+            "generator/non-iterable arguments, >>, <<, del children, del node[name], constructor with parents=/children=) with "
+            "fault-injecting hooks; every list argument is changed by the caller after the call (append/clear) and ~25 % of the list "
+            "assignments are followed by a second assignment that passes the very same list object to another node; strata: shape (deep/diamond/wide/mixed) x name pool (distinct/repeated); thorough tier adds "
             "every DAG state reachable on <= 4 objects (up to renaming) x every op of a finite universe; non-trivial = >= 2 "
             "accepted ops and >= 2 edges at some point" + extra + "; distinct by canonical JSON hash")
 
@@ -878,6 +957,6 @@ def partial_clauses(prop):
 
 def assumptions(prop):
     return ["objects are compared by identity (DAGNode defines neither __eq__ nor __hash__); arguments are lists, tuples, "
-            "sets with <= 1 element, dict views or non-iterables (no one-shot iterators)",
+            "sets with <= 1 element, dict views, generators or non-iterables",
             "a constructor call that raises in its children assignment leaves the accepted parents assignment in place "
             "(two assignments; modelled and checked assignment by assignment)"]
